@@ -25,6 +25,7 @@ t0 = time.time()
 try:
     env = dict(os.environ)
     env["VERIF_EVIDENCE_DIR"] = tempfile.mkdtemp(prefix="seed-evidence-")
+    env["VERIF_FAILFAST"] = "1"  # stop at the first replay-confirmed violation
     p = subprocess.run([os.path.join(VERIF, "check"), prop, "--tier", tier], cwd=VERIF, env=env, stdout=subprocess.PIPE, stderr=subprocess.PIPE, text=True)
 finally:
     subprocess.run(["git", "-C", "/repo", "checkout", "--", "."], check=True)
